@@ -1011,6 +1011,11 @@ fn parse_json_filter(input: &[u8], output: &mut [u8]) -> Result<(usize, usize), 
             // write count
             put(output, countindex, count.to_ne_bytes().as_slice())?;
         }
+        // the section length, and every offset, count and string length in it, are
+        // u16 fields (and are all bounded by the section length)
+        if end - write_tags_start > u16::MAX as usize {
+            return Err(InnerError::JsonBadFilter("Tag fields too large", end).into());
+        }
         // write length of tags section
         put(
             output,
